@@ -10,6 +10,7 @@ import Kitoken.Spec.Normalize
 import Kitoken.Spec.Compose
 import Kitoken.Model.DefCodec
 import Kitoken.Model.Export
+import Kitoken.Spec.Keeps
 namespace Kitoken.Driver
 
 open Kitoken Std
@@ -142,6 +143,10 @@ def handleDecStep (args : List String) (impl : List String) : String :=
 structure State where
   building : HashMap Nat DefBuild := {}
   toks : HashMap Nat (Tokenizer Float) := {}
+  /-- C15: the converted definition of a slot as far as the property speaks about it, and the source
+      tokens an independent parser found (SRCT lines). -/
+  convs : HashMap Nat Spec.Converted := {}
+  srcs : HashMap Nat (Array Spec.SrcToken) := {}
 
 def showInit : Except InitError (Tokenizer Float) → String
   | .ok _ => "OK"
@@ -195,6 +200,8 @@ def handleDef (st : State) (args : List String) : State × String :=
           pure { b with templates := b.templates.push ⟨c, p⟩ })
       | ["END"] =>
         let r := Tokenizer.new b.toDefinition
+        let conv : Spec.Converted := ⟨b.vocab.toList, b.scores.toList, b.specials.toList⟩
+        let st := { st with convs := st.convs.insert slot conv }
         let st' := match r with
           | .ok tk => { st with toks := st.toks.insert slot tk, building := st.building.erase slot }
           | .error _ => { st with toks := st.toks.erase slot, building := st.building.erase slot }
@@ -697,6 +704,144 @@ def handleRec (st : State) (args : List String) (impl : List String) : String :=
         | _ => "FAILS reference-input-rejected"
       s!"{model} || {verdict}"
     | _, _, _, _, _ => "BAD-OP"
+  | _ => "BAD-OP"
+
+/-! ### C15: converters -/
+
+def parseSrcKind : String → Option (Option SpecialKind)
+  | "-" => some none
+  | "U" => some (some .unknown)
+  | "C" => some (some .control)
+  | "P" => some (some .priority)
+  | _ => none
+
+def parseOptNat (s : String) : Option (Option Nat) := if s == "-" then some none else s.toNat?.map some
+
+/-- `SRCT <slot> <id> <bytes> <unused> <score bits|-> <priority|-> <kind|->`: one source token. -/
+def handleSrcT (st : State) (args : List String) : State × String :=
+  match args with
+  | [slot, id, bytes, unused, score, prio, kind] =>
+    match slot.toNat?, id.toNat?, parseHex bytes, parseBool unused, parseOptNat score, parseOptNat prio, parseSrcKind kind with
+    | some slot, some id, some bytes, some unused, some score, some prio, some kind =>
+      let arr := st.srcs.getD slot #[]
+      let st := { st with srcs := st.srcs.erase slot }
+      let t : Spec.SrcToken := { id := UInt32.ofNat id, bytes := bytes, unused := unused, score := score.map UInt32.ofNat, prio := prio, special := kind }
+      ({ st with srcs := st.srcs.insert slot (arr.push t) }, "ACK")
+    | _, _, _, _, _, _, _ => (st, "BAD-OP")
+  | _ => (st, "BAD-OP")
+
+def showTok (id : Id) (b : Bytes) : String := s!"id={id.toNat},bytes={toHex b}"
+
+/-- The same decision as `Spec.keepsCheck` with hash maps instead of list scans (needed for 100k-entry
+    vocabularies); on small sources the driver evaluates both and reports a difference. Returns the first
+    offending token. -/
+def keepsFast (src : Array Spec.SrcToken) (c : Spec.Converted) : Option String :=
+  let entries := c.entries
+  let entrySet : HashSet (Id × Bytes) := entries.foldl (fun m e => m.insert e) {}
+  let byBytes : HashMap Bytes (List Id) := entries.foldl (fun m e => m.insert e.2 (e.1 :: m.getD e.2 [])) {}
+  let vocabById : HashMap Id (List Bytes) := c.vocab.foldl (fun m e => m.insert e.1 (e.2 :: m.getD e.1 [])) {}
+  let srcMap : HashMap (Id × Bytes) Spec.SrcToken := src.foldl (fun m t => if m.contains (t.id, t.bytes) then m else m.insert (t.id, t.bytes) t) {}
+  let lost := src.find? fun t =>
+    match t.special with
+    | none => !(t.unused || entrySet.contains (t.id, t.bytes) || (byBytes.getD t.bytes []).any (· != t.id))
+    | some k => !(c.specials.any fun sp => sp.kind == k &&
+        ((sp.id == t.id && (sp.bytes == t.bytes || k == .unknown)) ||
+         (sp.bytes == t.bytes && (vocabById.getD t.id []).any (· != t.bytes))))
+  match lost with
+  | some t => some s!"source-token-not-kept {showTok t.id t.bytes}{if t.special.isSome then ",special" else ""}"
+  | none =>
+    let unusedIds : HashSet Id := src.foldl (fun m t => if t.unused then m.insert t.id else m) {}
+    match c.vocab.find? fun e => !(srcMap.contains e || unusedIds.contains e.1) with
+    | some e => some s!"entry-not-in-source {showTok e.1 e.2}"
+    | none =>
+      -- the defined priorities are non-decreasing along the vocabulary
+      let prios := c.vocab.filterMap fun e => (srcMap[e]?).bind (·.prio)
+      let rec sortedNat : List Nat → Bool
+        | a :: b :: rest => a ≤ b && sortedNat (b :: rest)
+        | _ => true
+      if !sortedNat prios then some "vocabulary-not-in-merge-priority-order"
+      else
+        let badScore := if c.scores.isEmpty then none else
+          (c.vocab.zip c.scores).find? fun (e, sc) =>
+            match srcMap[e]? with
+            | some t => !(t.score.isNone || t.score == some sc)
+            | none => false
+        match badScore with
+        | some (e, _) => some s!"score-changed {showTok e.1 e.2}"
+        | none => none
+
+/-- `KEEPS <slot> <format> :: OK`: the C15 verdict on the implementation's conversion of a source. -/
+def handleKeeps (st : State) (args : List String) (impl : List String) : String :=
+  match args with
+  | [slot, _fmt] =>
+    match slot.toNat?.bind (st.convs[·]?), slot.toNat?.map (st.srcs.getD · #[]) with
+    | some c, some src =>
+      let fast := keepsFast src c
+      let verdict :=
+        match impl with
+        | ["OK"] =>
+          (match fast with
+            | some why => s!"FAILS {why}"
+            | none =>
+              -- cross-check of the fast evaluation against the proved checker on small sources
+              if src.size ≤ 2000 && c.vocab.length ≤ 2000 && !Spec.keepsCheck src.toList c then "FAILS keepsCheck-disagrees-with-fast-evaluation"
+              else "HOLDS")
+        | _ => "FAILS converted-definition-does-not-initialize"
+      s!"SKIP || {verdict}"
+    | _, _ => "BAD-OP"
+  | _ => "BAD-OP"
+
+def sameSpecials (a b : List SpecialDef) : Bool := a == b
+
+/-- `CONVTT <slot> :: OK`: the model's `convertTiktoken` on the source lines equals the implementation's result. -/
+def handleConvTT (st : State) (args : List String) : String :=
+  match args with
+  | [slot] =>
+    match slot.toNat?.bind (st.convs[·]?), slot.toNat?.map (st.srcs.getD · #[]) with
+    | some c, some src =>
+      let out := Convert.convertTiktoken (src.toList.map fun t => (t.bytes, t.id))
+      let ok := out.vocab == c.vocab && sameSpecials out.specials c.specials
+      s!"{if ok then "OK" else "DIFF"} || HOLDS-NA"
+    | _, _ => "BAD-OP"
+  | _ => "BAD-OP"
+
+/-- `CONVTK <slot> <version> <numSpecial|-> <vocabSize|-> <rank:bytes,...> :: OK | ERR`: `convertTekken`. -/
+def handleConvTK (st : State) (args : List String) : String :=
+  match args with
+  | [slot, version, ns, vs, entries] =>
+    let parsed : Option (List (Nat × Bytes)) :=
+      if entries == "-" then some [] else
+      (entries.splitOn ",").mapM fun e =>
+        match e.splitOn ":" with
+        | [r, b] => do let r ← r.toNat?; let b ← parseHex b; pure (r, b)
+        | _ => none
+    match slot.toNat?, parseHex version, parseOptNat ns, parseOptNat vs, parsed with
+    | some slot, some version, some ns, some vs, some vocab =>
+      (match Convert.convertTekken (String.fromUTF8! ⟨version.toArray⟩) ns vs vocab with
+        | .error _ => "ERR || HOLDS-NA"
+        | .ok out =>
+          (match st.convs[slot]? with
+            | some c => s!"{if out.vocab == c.vocab && sameSpecials out.specials c.specials then "OK" else "DIFF"} || HOLDS-NA"
+            | none => "OK-NO-SLOT || HOLDS-NA"))
+    | _, _, _, _, _ => "BAD-OP"
+  | _ => "BAD-OP"
+
+/-- `BYTETAB <256 code points> :: OK`: the placeholder characters the implementation maps to bytes 0..255. -/
+def handleByteTab (args : List String) : String :=
+  match args with
+  | [cps] =>
+    match (cps.splitOn ",").mapM (·.toNat?) with
+    | some l => s!"{if l == Convert.byteTable then "OK" else "DIFF"} || HOLDS-NA"
+    | none => "BAD-OP"
+  | _ => "BAD-OP"
+
+/-- `BYTEPIECE <text> :: OK <byte> | ERR`: `<0xNN>` parsing. -/
+def handleBytePiece (args : List String) : String :=
+  match args with
+  | [t] =>
+    match parseHex t with
+    | some t => (match Convert.parseBytePiece t with | some b => s!"OK {b.toNat} || HOLDS-NA" | none => "ERR || HOLDS-NA")
+    | none => "BAD-OP"
   | _ => "BAD-OP"
 
 end Kitoken.Driver
